@@ -581,11 +581,24 @@ def main():
         units = {n: Unit(n, d) for n, d in sp["units"].items() if any(j["unit"] == n for j in jobs)}
         # pre-checks (encoder validation etc.): commands that must exit 0
         pre_results = []
+        pre_violation = False
         for pc in sp.get("prechecks", []):
             rc, so, se, wall, rss, to = run(["bash", "-c", pc["cmd"]], pc.get("timeout", 300),
                                             env=dict(os.environ, VERIF_SCRATCH=scratch, VERIF_REPO=REPO, VERIF=VERIF))
             pre_results.append(dict(name=pc["name"], rc=rc, wall_s=round(wall, 2), tail=(so + se)[-600:]))
-            if rc != 0:
+            if rc == pc.get("violation_rc", -999):
+                # a solver-based pre-step (asm2smt) found and natively confirmed a counterexample: that is a violation, not a broken check
+                d = os.path.join(VERIF, "replays", pid)
+                os.makedirs(d, exist_ok=True)
+                path = os.path.join(d, "precheck-%s.replay" % hashlib.sha1((so + se).encode()).hexdigest()[:10])
+                with open(path, "w") as f:
+                    f.write("# property=%s\n# precheck=%s\n" % (pid, pc["name"]))
+                    for line in (so + se).splitlines()[-40:]:
+                        f.write("# %s\n" % line)
+                log((so + se)[-1500:])
+                log("VIOLATION property=%s replay=%s" % (pid, path))
+                pre_violation = True
+            elif rc != 0:
                 log("BROKEN precheck %s failed:\n%s" % (pc["name"], (so + se)[-2000:]))
                 rc_final = 2
         lift_asm(scratch)
@@ -668,7 +681,7 @@ def main():
             log("  counterexample: entry=%s assertion='%s' at %s:%s native-replay=%s" % (
                 v["entry"], v["failure"]["description"], v["failure"].get("file"), v["failure"].get("line"), v["native"]))
             log("VIOLATION property=%s replay=%s" % (pid, v["replay"]))
-        if violations:
+        if violations or pre_violation:
             rc_final = 1
         elif broken and rc_final == 0:
             rc_final = 2
